@@ -11,14 +11,14 @@ EXTENDS Integers, Sequences, FiniteSets
 (* environment block (moves the stack); locale: LC_ALL; heap: allocator layout (glibc tunables that change where   *)
 (* blocks land, so that a number read from a pointer or from freed memory changes)                                  *)
 Cfgs == [aslr : {"on", "off"}, cwd : {"short", "long/deeper/dir"}, path : {"abs", "rel", "dotted"}, env : {"small", "big"},
-         locale : {"C", "de_DE.UTF-8"}, heap : {"default", "mmap", "perturb"},
+         locale : {"C", "C.UTF-8"}, heap : {"default", "mmap", "perturb"},
          \* prior: what the output directory has seen before this run - nothing, or a complete earlier run of the same
          \* tool on the same input (whose files the tool has to replace, not extend)
          prior : {"none", "same"}]
 Base == [aslr |-> "on", cwd |-> "short", path |-> "abs", env |-> "small", locale |-> "C", heap |-> "default", prior |-> "none"]
 (* configurations that differ from the base in exactly one coordinate, and the all-different one *)
 OneOff == {c \in Cfgs : Cardinality({k \in DOMAIN Base : c[k] # Base[k]}) = 1}
-Far == [aslr |-> "off", cwd |-> "long/deeper/dir", path |-> "dotted", env |-> "big", locale |-> "de_DE.UTF-8", heap |-> "perturb", prior |-> "same"]
+Far == [aslr |-> "off", cwd |-> "long/deeper/dir", path |-> "dotted", env |-> "big", locale |-> "C.UTF-8", heap |-> "perturb", prior |-> "same"]
 
 (* expression forms an aggregate bound, a string / binary width or a real precision may take: only a literal is a    *)
 (* number the generator may print; every other form has to be printed as text (or evaluated), never read as a number *)
